@@ -64,7 +64,8 @@ func planRecord(c planCfg) map[string]any {
 	rec := map[string]any{"k": "plan", "cfg": c, "panic": "", "err": "", "code": "", "stage": "",
 		"S": 0, "H": 0, "gate": 0, "undo": []any{}, "hasCursor": false,
 		"build": []uint64{}, "write": []uint64{}, "read": []uint64{}, "linear": []uint64{},
-		"lowestInit": 0, "lowestStoreInit": 0, "scheduleStores": false, "accepted": false}
+		"lowestInit": 0, "lowestStoreInit": 0, "scheduleStores": false, "accepted": false,
+		"backSeg": []int{}, "storesSeg": []int{}, "writeSeg": []int{}}
 	rec["panic"] = guard(func() {
 		var mods []*pbsubstreams.Module
 		outIn := []*pbsubstreams.Module_Input{inSource(blockType)}
@@ -138,6 +139,17 @@ func planRecord(c planCfg) map[string]any {
 		}
 		rec["accepted"] = true
 		rec["build"], rec["write"], rec["read"], rec["linear"] = rangeJ(p.BuildStores), rangeJ(p.WriteExecOut), rangeJ(p.ReadExecOut), rangeJ(p.LinearPipeline)
+		// the segmenters derived from the plan: the scheduler iterates over the back-process segmenter to hand out jobs
+		segJ := func(sg *block.Segmenter) []int { return []int{sg.FirstIndex(), sg.LastIndex()} }
+		if p.RequiresParallelProcessing() {
+			rec["backSeg"] = segJ(p.BackprocessSegmenter())
+		}
+		if p.BuildStores != nil {
+			rec["storesSeg"] = segJ(p.StoresSegmenter())
+		}
+		if p.WriteExecOut != nil {
+			rec["writeSeg"] = segJ(p.WriteOutSegmenter())
+		}
 	})
 	return rec
 }
